@@ -11,7 +11,7 @@ CONSUMER_MODES = ["mf_q", "mf_dt", "mf_tr", "q_dt", "q_tr", "hex", "hex_free"]
 
 @st.composite
 def heat_net(draw, max_n=6, labels=True, feeders=None, allow_oos=False, max_sections=4, const_fluid=False,
-             allow_mesh=True, modes=None, allow_neg_q=True):
+             allow_mesh=True, modes=None, allow_neg_q=True, allow_makeup=False):
     n = draw(st.integers(1, max_n))
     t0 = draw(fl(300.0, 330.0))          # start temperature of all junctions
     tf = draw(fl(340.0, 390.0))          # feed temperature
@@ -119,6 +119,22 @@ def heat_net(draw, max_n=6, labels=True, feeders=None, allow_oos=False, max_sect
                          "in_service": True})
         elements.append({"table": "ext_grid", "index": 1, "junction": n, "p_bar": p_flow - draw(fl(0.5, 3.0)),
                          "t_k": t0, "type": "p", "in_service": True})
+    if allow_makeup and feeder in ("cpp", "cpm") and draw(st.integers(0, 2)) == 0:
+        # open loop: net consumption / injection inside the loop, balanced by a make-up ext grid that sits on the pump's
+        # flow junction (same pressure as the pump fixes there) or on its return junction
+        plift = next((e.get("plift_bar") for e in elements if e["table"] == "circ_pump_pressure"), None)
+        for _ in range(draw(st.integers(1, 2))):
+            tbl = draw(st.sampled_from(["sink", "sink", "source"]))
+            elements.append({"table": tbl, "index": nxt(tbl), "junction": draw(st.integers(0, 2 * n - 1)),
+                             "mdot_kg_per_s": draw(fl(0.01, 0.3)), "scaling": draw(st.sampled_from([1.0, 1.0, 0.5])),
+                             "in_service": True})
+        if draw(st.booleans()) or (plift is None and False):
+            elements.append({"table": "ext_grid", "index": 0, "junction": 0, "p_bar": p_flow, "t_k": tf,
+                             "type": draw(st.sampled_from(["p", "pt"])), "in_service": True})
+        else:
+            elements.append({"table": "ext_grid", "index": 0, "junction": n,
+                             "p_bar": p_flow - plift if plift is not None else p_flow - draw(fl(0.5, 3.0)), "t_k": t0,
+                             "type": "p", "in_service": True})
     if allow_oos and draw(st.integers(0, 2)) == 0:
         k = draw(st.integers(0, len(elements) - 1))
         e = elements[k]
@@ -130,7 +146,7 @@ def heat_net(draw, max_n=6, labels=True, feeders=None, allow_oos=False, max_sect
                            "heat_capacity": 4182.0, "molar_mass": 18.0}}
     rec = {"fluid": fluid, "sector": draw(st.sampled_from(["all", "all", "heat", "None"])), "junction": juncs,
            "elements": elements, "meta": {"feeder": feeder, "n": n}}
-    if rec["sector"] == "heat" and any(e["table"] in ("ext_grid", "flow_control") for e in elements):
+    if rec["sector"] == "heat" and any(e["table"] in ("ext_grid", "flow_control", "sink", "source") for e in elements):
         rec["sector"] = "all"
     if draw(st.booleans()):
         perm = draw(st.permutations(list(range(len(elements)))))
